@@ -33,7 +33,8 @@ class Ctx:
             F.info = info
             self._facts[k] = F
             self.rep.configs.append({'features': feat, 'profile': prof, 'crate': crate, 'env': info['env'],
-                                     'bodies': len(F.fns), 'cached': info.get('cached'), 'extract_s': info.get('extract_s')})
+                                     'bodies': len(F.fns), 'cached': info.get('cached'), 'extract_s': info.get('extract_s'),
+                                     'renamed_functions_analysed_under_reference_names': dict(getattr(F, 'aliases', {}))})
         return self._facts[k]
 
 
